@@ -9,8 +9,8 @@ CONSTANTS MaxLevel
 VARIABLE hist
 gvars == <<vars, hist>>
 
-MCFamOf(k)   == IF k \in {"k3", "k5"} THEN "v6u" ELSE "v4u"
-MCAttrIdx(k, a) == <<MCFamOf(k), a>>   \* route text carries the next hop inside the attribute index; x differs per family
+MCFamOf(k)   == IF k \in {"k3", "k5"} THEN "v6u" ELSE IF k = "k7" THEN "v4l" ELSE "v4u"     \* k7: a labeled route (the label is payload: it travels with the attributes x / y)
+MCAttrIdx(k, a) == <<MCFamOf(k), IF k = "k7" /\ a \in {"x", "y"} THEN "xy" ELSE a>>   \* the attribute index of the route text: x and y of the labeled key differ in the label only
 MCGrouped(f) == f = "v4u"
 
 GInit == Init /\ hist = <<>>
